@@ -43,12 +43,15 @@ META = {
 # static part (independent of /repo): models, word lemmas, the parametric exactness theorems
 STATIC = ["C03/LIR.v", "C03/VSL.v", "C03/ArithSpec.v", "C03/WordArith.v", "C03/TypeLemmas.v", "C03/ArithModel.v",
           "C03/TieBase.v", "C03/VSubst.v", "C03/TieModels.v", "C03/LegacyExact.v", "C03/VenomExact.v",
-          "C03/ConvSpec.v", "C03/ConvModel.v", "C03/ConvExact.v", "C03/VConvExact.v", "C03/ConvTie.v"]
+          "C03/ConvSpec.v", "C03/ConvModel.v", "C03/ConvExact.v", "C03/VConvExact.v", "C03/ConvTie.v",
+          "C03/PowExact.v", "C03/PowTie.v"]
 # regenerated templates + the ties + the property theorems about the REAL templates
 LEGACY = ["C03/GenLegacy.v", "C03/TieLegacy.v", "C03/PropsLegacy.v"]
 VENOM = ["C03/GenVenom.v", "C03/TieVenom.v", "C03/PropsVenom.v"]
 CONVL = ["C03/GenConvLegacy.v", "C03/TieConvLegacy.v", "C03/PropsConvLegacy.v"]
 CONVV = ["C03/GenConvVenom.v", "C03/TieConvVenom.v", "C03/PropsConvVenom.v"]
+POWL = ["C03/GenPowLegacy.v", "C03/TiePowLegacy.v", "C03/PropsPowLegacy.v"]
+POWV = ["C03/GenPowVenom.v", "C03/TiePowVenom.v", "C03/PropsPowVenom.v"]
 
 OPSYM = {"AAdd": "+", "ASub": "-", "AMul": "*", "ADiv": "//", "AMod": "%", "AUSub": "-"}
 
@@ -69,6 +72,14 @@ Definition lev_row (t : lir) (sh lit : Z) (G : list Z) : list Z :=
   map (fun p => oc (leval (env2 (fst p) (snd p)) t)) (prs sh lit G).
 Definition vev_row (t : vtemplate) (sh lit : Z) (G : list Z) : list Z :=
   map (fun p => oc (vrun [("%2"%string, enc (snd p)); ("%1"%string, enc (fst p))] t)) (prs sh lit G).
+(* x ** y without ever computing an astronomically large power (|x| >= 2 and y > 256 cannot be representable) *)
+Definition pow_safe (T : nty) (x y : Z) : outcome :=
+  if y <? 0 then Revert
+  else if Z.abs x <=? 1
+       then chk T (if x =? 0 then (if y =? 0 then 1 else 0) else if x =? 1 then 1 else if Z.even y then 1 else -1)
+       else if 256 <? y then Revert else chk T (x ^ y).
+Definition pspec_row (T : nty) (sh lit : Z) (G : list Z) : list Z :=
+  map (fun p => oc (enc_out (pow_safe T (fst p) (snd p)))) (prs sh lit G).
 Definition nest_row (T : nty) (G : list Z) : list Z :=
   map (fun p => oc (enc_out (match arith_spec T ASub (fst p) (snd p) with
      | Val v => arith_spec T AAdd v (snd p) | o => o end))) (list_prod G G).
@@ -247,6 +258,15 @@ def probe_source(ty, with_lits):
                     continue  # literal zero divisor: rejected by the type checker
                 src.append(f"@external\ndef {name}_r{li}(x: {t}) -> {t}:\n    return x {sym} {ls}\n")
                 fns.append((f"{name}_r{li}", aop, 2, v))
+        if not d:
+            lo, hi = bounds(k, s)
+            pb = [a for a in (2, 3, 10, 16, -2, -3, 2**(4 * k)) if lo <= a <= hi]
+            for bi, a in enumerate(pb):
+                src.append(f"@external\ndef powb_{bi}(y: {t}) -> {t}:\n    return {'(' + str(a) + ')' if a < 0 else a} ** y\n")
+                fns.append((f"powb_{bi}", "APow", 1, a))
+            for ei, e in enumerate([e for e in (2, 3, 8, 8 * k - 1) if e <= hi]):
+                src.append(f"@external\ndef powe_{ei}(x: {t}) -> {t}:\n    return x ** {e}\n")
+                fns.append((f"powe_{ei}", "APow", 2, e))
     return "\n".join(src), fns
 
 
@@ -294,6 +314,8 @@ def glue_differential(ctx, tys, cfgs, size, with_lits=True):
                     spec = f"nest_row {X.nty(*ty)} G{gi}"
                 elif aop == "narrow":
                     spec = f"narrow_row {X.nty(*ty)} {X.zl(lo // 2)} {X.zl(hi // 2)} G{gi}"
+                elif aop == "APow":
+                    spec = f"pspec_row {X.nty(*ty)} {sh} {X.zl(lit)} G{gi}"
                 else:
                     spec = f"spec_row {X.nty(*ty)} {aop} {sh} {X.zl(lit)} G{gi}"
                 g = groups.setdefault((ty, fn), {"spec": spec, "cs": cs, "runs": []})
@@ -533,6 +555,60 @@ def venom_extra_conversions(ctx, extras):
     return False
 
 
+# ------------------------------------------------------------------ (4) safe_pow templates
+def pow_grid(kd, ty, lit, p1, p2, rnd):
+    """operand values for the non-literal side of a pow template"""
+    k, s, _ = ty
+    lo, hi = bounds(k, s)
+    if kd == 0:   # literal base, variable exponent: around the bound, small, huge, negative
+        vals = {0, 1, 2, 3, p1 - 1, p1, p1 + 1, p1 + 2, 255, 256, 257, hi, hi - 1, lo, -1, rnd.randrange(0, 300)}
+    else:         # literal exponent, variable base: around the interval ends + type boundaries
+        vals = {0, 1, 2, -1, -2, p1 - 1, p1, p1 + 1, p2 - 1, p2, p2 + 1, lo, lo + 1, hi, hi - 1, rnd.randrange(lo, hi + 1)}
+    return sorted(v for v in vals if lo <= v <= hi)
+
+
+def pow_differential(ctx, templates, kind, sample=None, force_idx=()):
+    rnd = ctx.rng(kind + "pow")
+    force_idx = set(force_idx)
+    idx = [j for j in range(len(templates)) if j in force_idx or sample is None or rnd.random() < sample]
+    chain = Chain("cancun")
+    rows, meta = [], []
+    n_eval = 0
+    for j in idx:
+        kd, ty, lit, p1, p2, n = templates[j]
+        g = pow_grid(kd, ty, lit, p1, p2, rnd)
+        sh = 1 if kd == 0 else 2
+        cs = pairs(sh, lit, g)
+        code = ir_snippet_code(n) if kind == "legacy" else venom_snippet_code(n)
+        obs = run_code(chain, code, cs)
+        n_eval += len(cs)
+        gl = zlist(g)
+        rows.append({"spec": f"pspec_row {X.nty(*ty)} {sh} {X.zl(lit)} {gl}",
+                     "model": (f"lev_row {X.lir_term(n)} {sh} {X.zl(lit)} {gl}" if kind == "legacy"
+                               else f"vev_row {X.vtemplate_term(*n)} {sh} {X.zl(lit)} {gl}"), "obs": obs})
+        meta.append((kd, ty, lit, n, cs, obs))
+    res = compare_rows(COQ_PRELUDE, rows, "c03pow" + kind, shard=60)
+    failing, bad_model = [], []
+    for (kd, ty, lit, n, cs, obs), (sm, mm) in zip(meta, res):
+        for i, e, _ in sm[:1]:
+            failing.append((kd, ty, lit, cs[i] if 0 <= i < len(cs) else ("?", "?"), e, obs[i] if 0 <= i < len(obs) else None, n))
+        for i, e, _ in mm[:1]:
+            bad_model.append((kd, ty, lit, cs[i] if 0 <= i < len(cs) else ("?", "?"), e, obs[i] if 0 <= i < len(obs) else None))
+    ctx.corr[kind + "_pow_cases"] = n_eval
+    ctx.corr[kind + "_pow_templates_run"] = len(idx)
+    return n_eval, failing, bad_model
+
+
+def mismatching_pows(kind):
+    gen, fn, tbl = ("GenPowLegacy", "ptie_one", "legacy_pows") if kind == "legacy" else ("GenPowVenom", "vptie_one", "venom_pows")
+    try:
+        out = coqrun.eval_zlists(f"From Verif Require Import C03.TieModels C03.PowTie C03.{gen}.\n",
+                                 [f"bad_idx {fn} 0 {tbl}"], "c03badp" + kind, timeout=300)
+        return out[0]
+    except Exception:  # noqa
+        return None
+
+
 # ------------------------------------------------------------------ main
 def choose_types(ctx, all_tys):
     if ctx.tier == "thorough":
@@ -574,18 +650,29 @@ def run(ctx):
         (COQ / "C03" / "GenConvVenom.v").write_text(text)
     except Exception as e:  # noqa
         gen_err = (gen_err or "") + f" convert export: {type(e).__name__}: {e}"
+    lpow, vpow = [], []
+    try:
+        text, lpow = X.gen_pow("legacy")
+        (COQ / "C03" / "GenPowLegacy.v").write_text(text)
+        text, vpow = X.gen_pow("venom")
+        (COQ / "C03" / "GenPowVenom.v").write_text(text)
+    except Exception as e:  # noqa
+        gen_err = (gen_err or "") + f" pow export: {type(e).__name__}: {e}"
     if any(X.CRASHES.get(k) for k in ("legacy", "venom")):
         ctx.extra["convert_generator_crashes"] = {k: v[:10] for k, v in X.CRASHES.items() if v}
     ctx.extra["family_size"] = {"legacy_templates": len(ltempl), "venom_templates": len(vtempl), "numeric_types": 65,
                                 "legacy_clamps": 65, "venom_clamps": 65,
-                                "legacy_converts": len(lconv), "venom_converts": len(vconv), "word_types": 103}
+                                "legacy_converts": len(lconv), "venom_converts": len(vconv), "word_types": 103,
+                                "legacy_pows": len(lpow), "venom_pows": len(vpow)}
 
     # ---- proofs: static part, then the legacy and venom chains concurrently (content-keyed .vo reuse)
     b0 = ctx.coq_build_cached(STATIC)
     res = {"legacy": {"ok": False, "file": "C03/GenLegacy.v", "failed_lemma": None, "out": gen_err or ""},
            "venom": {"ok": False, "file": "C03/GenVenom.v", "failed_lemma": None, "out": gen_err or ""},
            "convl": {"ok": False, "file": "C03/GenConvLegacy.v", "failed_lemma": None, "out": gen_err or ""},
-           "convv": {"ok": False, "file": "C03/GenConvVenom.v", "failed_lemma": None, "out": gen_err or ""}}
+           "convv": {"ok": False, "file": "C03/GenConvVenom.v", "failed_lemma": None, "out": gen_err or ""},
+           "powl": {"ok": False, "file": "C03/GenPowLegacy.v", "failed_lemma": None, "out": gen_err or ""},
+           "powv": {"ok": False, "file": "C03/GenPowVenom.v", "failed_lemma": None, "out": gen_err or ""}}
     if b0["ok"]:
         ths = []
         if ltempl:
@@ -596,15 +683,19 @@ def run(ctx):
             ths.append(threading.Thread(target=build_chain, args=(ctx, CONVL, STATIC, res, "convl")))
         if vconv:
             ths.append(threading.Thread(target=build_chain, args=(ctx, CONVV, STATIC, res, "convv")))
+        if lpow:
+            ths.append(threading.Thread(target=build_chain, args=(ctx, POWL, STATIC, res, "powl")))
+        if vpow:
+            ths.append(threading.Thread(target=build_chain, args=(ctx, POWV, STATIC, res, "powv")))
         for t in ths:
             t.start()
         for t in ths:
             t.join()
-    bl, bv, bcl, bcv = res["legacy"], res["venom"], res["convl"], res["convv"]
+    bl, bv, bcl, bcv, bpl, bpv = res["legacy"], res["venom"], res["convl"], res["convv"], res["powl"], res["powv"]
     ctx.log(f"coq done {time.time()-t0:.0f}s static={b0['ok']} legacy={bl['ok']} venom={bv['ok']} "
-            f"convert-legacy={bcl['ok']} convert-venom={bcv['ok']}")
-    if bl["ok"] and bv["ok"] and bcl["ok"] and bcv["ok"]:
-        ctx.extra["syntactic_matches"] = len(ltempl) + len(vtempl) + 130 + len(lconv) + len(vconv)
+            f"convert-legacy={bcl['ok']} convert-venom={bcv['ok']} pow-legacy={bpl['ok']} pow-venom={bpv['ok']}")
+    if all(b["ok"] for b in (bl, bv, bcl, bcv, bpl, bpv)):
+        ctx.extra["syntactic_matches"] = len(ltempl) + len(vtempl) + 130 + len(lconv) + len(vconv) + len(lpow) + len(vpow)
 
     # ---- correspondence / search
     found = False
@@ -651,6 +742,37 @@ def run(ctx):
                 ctx.violation("correspondence-broken", f"Coq evaluator disagrees with the real back end + EVM on an exported {kind} template",
                               {"op": op, "type": tyname(ty), "shape": shape, "x": str(c[0]), "y": str(c[1]), "coq": str(l), "evm": str(g)})
     ctx.log(f"template differential done {time.time()-t0:.0f}s")
+
+    # ---- safe_pow templates
+    for kind, templ, b in (("legacy", lpow, bpl), ("venom", vpow, bpv)):
+        if not templ or not b0["ok"]:
+            continue
+        if b["ok"]:
+            frac, force = (0.06 if ctx.tier == "quick" else 0.5), ()
+        else:
+            bad = mismatching_pows(kind)
+            ctx.log(f"search pow {kind}: {None if bad is None else len(bad)} templates differ from the model / have a wrong bound")
+            frac, force = (0.3, ()) if bad is None else (0.06, bad[::max(1, len(bad) // 300)])
+        n, failing, bad_model = pow_differential(ctx, templ, kind, frac, force)
+        total += n
+        for kd, ty, lit, c, e, g, node in failing[:5]:
+            found = True
+            tstr = str(node) if kind == "legacy" else "; ".join(str(i).strip() for i in node[0]) + f" -> {node[1]}"
+            what = f"{lit} ** y" if kd == 0 else f"x ** {lit}"
+            ctx.violation(
+                "failing-input", f"{kind} safe_pow template {what} for {tyname(ty)} is not exact-or-revert",
+                {"generator": ("vyper.codegen.arithmetic.safe_pow" if kind == "legacy" else "vyper.codegen_venom.arithmetic.safe_pow")
+                              + f", type {tyname(ty)}, {'literal base' if kd == 0 else 'literal exponent'} {lit}",
+                 "template": " ".join(tstr.split()), "x": str(c[0]), "y": str(c[1]),
+                 "expected": "revert" if e == -1 else hex(e),
+                 "observed_on_evm": "revert" if g == -1 else (hex(g) if g is not None else "?"),
+                 "how": "template compiled by the real back end + assembler, executed on pyrevm"},
+                key=f"{kind}-pow:{tyname(ty)}:{'b' if kd == 0 else 'e'}{lit}")
+        for kd, ty, lit, c, l, g in bad_model[:5]:
+            if not found:
+                ctx.violation("correspondence-broken", f"Coq evaluator disagrees with the real back end + EVM on an exported {kind} pow template",
+                              {"type": tyname(ty), "literal": str(lit), "x": str(c[0]), "y": str(c[1]), "coq": str(l), "evm": str(g)})
+    ctx.log(f"pow differential done {time.time()-t0:.0f}s")
 
     # ---- conversions: template differential (+ Search), glue probes, venom-only pairs
     for kind, templ, b in (("legacy", lconv, bcl), ("venom", vconv, bcv)):
@@ -718,7 +840,8 @@ def run(ctx):
     # ---- verdicts for broken proofs / ties
     if gen_err and not found:
         ctx.violation("translator-rejected", "template export failed: " + gen_err, {"error": gen_err})
-    for b, what in ((b0, "static"), (bl, "legacy"), (bv, "venom"), (bcl, "convert-legacy"), (bcv, "convert-venom")):
+    for b, what in ((b0, "static"), (bl, "legacy"), (bv, "venom"), (bcl, "convert-legacy"), (bcv, "convert-venom"),
+                    (bpl, "pow-legacy"), (bpv, "pow-venom")):
         if not b["ok"] and not found and not (gen_err and what != "static"):
             ctx.violation("theorem-broken", f"{b.get('failed_lemma')} in {b.get('file')} ({what})",
                           {"theorem": b.get("failed_lemma"), "file": b.get("file"), "coq_output": (b.get("out") or "")[-1500:]})
